@@ -18,7 +18,7 @@ RULE = ("case = history of 0..2 committed sessions followed by one crashing "
         "opens; reachable shards exist and match their digests; iteration "
         "returns whole, written examples and everything committed earlier) is "
         "evaluated at EVERY effect boundary of the crashing session (tfrec: "
-        "every 8th boundary, TensorFlow's writes are not chunked). 40% of the "
+        "every 8th boundary, the stride doubling after every 4 evaluations; TensorFlow's writes are not chunked). 40% of the "
         "cases really kill the process at a seeded instant, 20% (fb/npz) "
         "fail the k-th fallible FS operation with ENOSPC/EIO for 1, 2 or all "
         "following operations instead; both are followed by one more "
